@@ -243,6 +243,14 @@ class FloatInterp:
                 return Iv(lo, hi, cs.name, free, free)
             if cs.name == "math.sqrt" and args and isinstance(args[0], Iv) and args[0].lo >= 0:
                 return Iv(_dn(math.sqrt(args[0].lo)), _up(math.sqrt(args[0].hi)))
+            if cs.name == "math.fmod" and len(args) == 2 and isinstance(args[0], Iv) and isinstance(args[1], Iv) and args[1].lo == args[1].hi \
+                    and args[1].lo > 0 and not math.isinf(args[0].lo) and not math.isinf(args[0].hi):
+                x, y = args[0], args[1].lo
+                if -y < x.lo and x.hi < y:
+                    return x             # fmod keeps the sign of the dividend: inside (-y, y) it is the identity (bounds stay attained)
+                lo = 0.0 if x.lo >= 0 else -y
+                hi = 0.0 if x.hi <= 0 else y
+                return Iv(lo, hi)        # open at +-y: the hull is not attained
             if cs.name in ("math.floor", "math.ceil") and args and isinstance(args[0], Iv) and not math.isinf(args[0].lo) and not math.isinf(args[0].hi):
                 f = math.floor if cs.name == "math.floor" else math.ceil
                 return Iv(float(f(args[0].lo)), float(f(args[0].hi)))
